@@ -136,7 +136,7 @@ theorem swapPast (M : Machine S) (hs : ReplaySafe M) (e : Entry) :
     have hnst : replayStep M t b = M.step t b.toInput :=
       replayStep_of_not_stale M t b (by omega)
     have vb0 : visA (replayStep M t b).2 = [] := by
-      rw [hnst]; exact hs.future_silent t b hlt hb.2
+      rw [hnst]; exact (hs.future_silent t b hlt hb.2).1
     have htb : M.height (replayStep M t b).1 = M.height t := replayStep_silent_height M hs t b vb0
     obtain ⟨c1, c2, c3⟩ := hs.commute t b e ht hb.1 hb.2
     have ihb := ih (replayStep M t b).1 (by omega) (fun y hy => hB y (by simp [hy]))
